@@ -31,6 +31,8 @@ import (
 	sqlMetadataStore "github.com/jdillenkofer/pithos/internal/storage/metadatapart/metadatastore/sql"
 	"github.com/jdillenkofer/pithos/internal/storage/metadatapart/partstore"
 	filesystemPartStore "github.com/jdillenkofer/pithos/internal/storage/metadatapart/partstore/filesystem"
+	"github.com/jdillenkofer/pithos/internal/storage/metadatapart/partstore/middlewares/compression"
+	"github.com/jdillenkofer/pithos/internal/storage/metadatapart/partstore/middlewares/encryption/tink"
 	sqlPartStore "github.com/jdillenkofer/pithos/internal/storage/metadatapart/partstore/sql"
 )
 
@@ -86,8 +88,40 @@ func metaOpen(dir string, stack string) (*metaEnv, error) {
 		if err != nil {
 			return nil, err
 		}
+	case "zstdsql":
+		pcr, err := repositoryFactory.NewPartContentRepository(db)
+		if err != nil {
+			return nil, err
+		}
+		inner, err := sqlPartStore.New(db, pcr)
+		if err != nil {
+			return nil, err
+		}
+		ps, err = compression.New(inner)
+		if err != nil {
+			return nil, err
+		}
 	default:
 		ps, err = filesystemPartStore.New(filepath.Join(dir, "parts"))
+		if err != nil {
+			return nil, err
+		}
+		switch stack {
+		case "zstd": // compression over a seekable store: small/incompressible parts are stored raw behind a header
+			ps, err = compression.New(ps)
+		case "tink":
+			ps, err = tink.NewWithLocalKMS("meta-harness-password", ps, nil)
+		case "zstdtink":
+			ps, err = tink.NewWithLocalKMS("meta-harness-password", ps, nil)
+			if err == nil {
+				ps, err = compression.New(ps)
+			}
+		case "tinkzstd":
+			ps, err = compression.New(ps)
+			if err == nil {
+				ps, err = tink.NewWithLocalKMS("meta-harness-password", ps, nil)
+			}
+		}
 		if err != nil {
 			return nil, err
 		}
@@ -356,6 +390,84 @@ func metaOpt(s *string) string {
 	return "S" + tokBytes(*s)
 }
 
+func metaOptInt(t string) *int64 {
+	if t == "-" {
+		return nil
+	}
+	v, _ := strconv.ParseInt(t, 10, 64)
+	return &v
+}
+
+// reference semantics of a storage.ByteRange (End exclusive, Start=nil/End=n = last n bytes, end clamped):
+// the slice and whether the range is satisfiable
+func metaSlice(content []byte, r *storage.ByteRange) ([]byte, bool) {
+	size := int64(len(content))
+	if r == nil || (r.Start == nil && r.End == nil) {
+		return content, true
+	}
+	if r.Start == nil {
+		n := *r.End
+		if n <= 0 || size == 0 {
+			return nil, false
+		}
+		if n > size {
+			n = size
+		}
+		return content[size-n:], true
+	}
+	st := *r.Start
+	en := size
+	if r.End != nil && *r.End < size {
+		en = *r.End
+	}
+	if st < 0 || st >= en {
+		return nil, false
+	}
+	return content[st:en], true
+}
+
+// a byte range on an EMPTY source: the property does not say whether a server-side copy of it is an error or
+// an empty copy; both are accepted (the content copied is empty either way)
+func metaSliceLenient(content []byte, r *storage.ByteRange) ([]byte, bool) {
+	if len(content) == 0 {
+		return nil, true
+	}
+	return metaSlice(content, r)
+}
+
+func (m *metaRun) checkRangeRead(b, k string, v *string, br storage.ByteRange, body []byte, err error, out string) {
+	sb := m.sh.buckets[b]
+	if sb == nil {
+		return
+	}
+	var want *shVersion
+	if v != nil {
+		want = sb.find(k, *v)
+	} else {
+		want = sb.current(k)
+	}
+	if want == nil || want.dm {
+		if err == nil {
+			m.fail("read", "ranged read of an absent key/version succeeded: "+out)
+		}
+		return
+	}
+	sl, ok := metaSlice(want.content, &br)
+	if !ok {
+		if err == nil {
+			m.fail("read", "unsatisfiable range was served: "+out)
+		}
+		return
+	}
+	if err != nil {
+		m.fail("read", "satisfiable ranged read failed: "+out)
+		return
+	}
+	if !bytes.Equal(body, sl) {
+		m.fail("read", fmt.Sprintf("ranged read returned %d bytes that are not the requested slice (%d bytes) of the last acknowledged write", len(body), len(sl)))
+	}
+}
+
 func md5hex(b []byte) string { s := md5.Sum(b); return hex.EncodeToString(s[:]) }
 
 // executes one history; returns the output line
@@ -374,7 +486,7 @@ func (m *metaRun) exec(line string) string {
 		if len(f) >= 3 {
 			m.curKey = f[1] + "/" + f[2]
 		}
-		if f[0] == "cp" {
+		if f[0] == "cp" || f[0] == "cpr" {
 			m.curKey = f[4] + "/" + f[5]
 		}
 		switch f[0] {
@@ -773,6 +885,105 @@ func (m *metaRun) exec(line string) string {
 						}
 						m.checkWriteVid(dsb, vid, "copy")
 						dsb.write(f[5], vid, append([]byte{}, src.content...), i, i)
+						m.mutated()
+					}
+				}
+			}
+		case "getr":
+			v := metaVref(m, f[3])
+			br := storage.ByteRange{Start: metaOptInt(f[4]), End: metaOptInt(f[5])}
+			var opts *storage.GetObjectOptions
+			if v != nil {
+				opts = &storage.GetObjectOptions{VersionID: v}
+			}
+			obj, readers, err := st.GetObject(ctx, bn(f[1]), kn(f[2]), []storage.ByteRange{br}, opts)
+			var body []byte
+			if err == nil {
+				for _, r := range readers {
+					b, rerr := io.ReadAll(r)
+					r.Close()
+					if rerr != nil {
+						err = rerr
+					}
+					body = append(body, b...)
+				}
+			}
+			if err != nil {
+				out = metaErr(m, err)
+			} else {
+				vid := "null"
+				if obj.VersionID != nil {
+					vid = *obj.VersionID
+				}
+				out = strings.Join([]string{"obj", m.nameVid(vid), tokBytes(obj.ETag), strconv.FormatInt(obj.Size, 10), m.lmName(obj.LastModified), metaOpt(obj.ContentType), tokBytes(string(body))}, ":")
+			}
+			m.checkRangeRead(f[1], f[2], v, br, body, err, out)
+		case "upc":
+			v := metaVref(m, f[3])
+			uid := metaUpref(m, f[6])
+			pn, _ := strconv.Atoi(f[7])
+			opts := &storage.UploadPartCopyOptions{SourceVersionID: v}
+			if f[8] != "-" || f[9] != "-" {
+				opts.Range = &storage.ByteRange{Start: metaOptInt(f[8]), End: metaOptInt(f[9])}
+			}
+			m.curKey = f[4] + "/" + f[5]
+			res, err := st.UploadPartCopy(ctx, bn(f[1]), kn(f[2]), bn(f[4]), kn(f[5]), uid, int32(pn), opts)
+			if err != nil {
+				out = metaErr(m, err)
+			} else {
+				out = "etag:" + tokBytes(res.ETag)
+				m.opETag[i] = res.ETag
+				ssb, dsb := m.sh.buckets[f[1]], m.sh.buckets[f[4]]
+				if ssb != nil && dsb != nil {
+					var src *shVersion
+					if v != nil {
+						src = ssb.find(f[2], *v)
+					} else {
+						src = ssb.current(f[2])
+					}
+					if src == nil || src.dm {
+						m.fail("copy", "UploadPartCopy succeeded although the source does not exist in the reference model")
+					} else if want, ok := metaSliceLenient(src.content, opts.Range); !ok {
+						m.fail("copy", "UploadPartCopy accepted an unsatisfiable range")
+					} else {
+						if res.ETag != "\""+md5hex(want)+"\"" {
+							m.fail("copy", "UploadPartCopy ETag is not the MD5 of the copied byte range")
+						}
+						if ps, ok := dsb.uploads[uid.String()]; ok && dsb.upKey[uid.String()] == f[5] {
+							ps[pn] = append([]byte{}, want...)
+						}
+					}
+				}
+			}
+		case "cpr":
+			v := metaVref(m, f[3])
+			opts := &storage.CopyObjectOptions{SourceVersionID: v, Range: &storage.ByteRange{Start: metaOptInt(f[6]), End: metaOptInt(f[7])}}
+			res, err := st.CopyObject(ctx, bn(f[1]), kn(f[2]), bn(f[4]), kn(f[5]), opts)
+			if err != nil {
+				out = metaErr(m, err)
+			} else {
+				vn := m.regVid(i, res.VersionID)
+				out = "put:" + vn + ":" + tokBytes(res.ETag)
+				m.opETag[i] = res.ETag
+				ssb, dsb := m.sh.buckets[f[1]], m.sh.buckets[f[4]]
+				if ssb != nil && dsb != nil {
+					var src *shVersion
+					if v != nil {
+						src = ssb.find(f[2], *v)
+					} else {
+						src = ssb.current(f[2])
+					}
+					if src == nil || src.dm {
+						m.fail("copy", "ranged copy succeeded although the source does not exist in the reference model")
+					} else if want, ok := metaSliceLenient(src.content, opts.Range); !ok {
+						m.fail("copy", "ranged copy accepted an unsatisfiable range")
+					} else {
+						vid := "null"
+						if res.VersionID != nil {
+							vid = *res.VersionID
+						}
+						m.checkWriteVid(dsb, vid, "copy")
+						dsb.write(f[5], vid, append([]byte{}, want...), i, i)
 						m.mutated()
 					}
 				}
